@@ -212,7 +212,7 @@ def penalty_data(case, kind):
     return out
 
 
-def observe(case, kind):
+def observe(case, kind, prepare=None):
     """Run the real optimisation (1 evaluation) and read the affected set(s).
     -> {dataset label: set of indices}  (for weight_model: indices on the model axis)"""
     from glotaran.optimization.optimize import optimize
@@ -220,6 +220,8 @@ def observe(case, kind):
     override = penalty_data(case, kind) if kind.startswith("pen") else None
     data = S.build_data(case, override=override)
     scheme = S.build_scheme(case, data=data, maximum_number_function_evaluations=1)
+    if prepare is not None:
+        prepare(scheme)
     with warnings.catch_warnings(record=True) as w:
         warnings.simplefilter("always")
         with time_limit(30):
@@ -372,6 +374,39 @@ def run_monotone(case, rec, rng):
                           f"interval {jc['iv']} affects {sorted(a)} but the larger {wide['iv']} only {sorted(b)}")
 
 
+def run_reassign(case, rec, rng):
+    """The item is CONSTRUCTED with one interval, used once, and its interval attribute is then reassigned on the same
+    object (interactive use): from then on it acts on the new interval."""
+    from glotaran.optimization.optimize import optimize
+
+    kind = case["features"]["kind"]
+    if kind not in ("zero", "only", "relation") or case.get("iv") is None:
+        return
+    jc1 = S.jsonable_case(case)
+    jc2 = S.jsonable_case(dict(case))
+    iv2 = widen(rng, case["iv"])
+    jc2["iv"] = iv2
+    set_item(jc2, kind, S.jsonable_case({"iv": iv2})["iv"])
+
+    def prepare(scheme):
+        first = S.build_scheme(jc1, maximum_number_function_evaluations=1)
+        with warnings.catch_warnings():
+            warnings.simplefilter("ignore")
+            optimize(first, verbose=False, raise_exception=True)
+        item = (first.model.clp_relations if kind == "relation" else first.model.clp_constraints)[0]
+        item.interval = S.as_interval(jc2["iv"])
+        scheme.model = first.model
+
+    try:
+        sets, _, _ = observe(jc2, kind, prepare=prepare)
+    except (Exception, CaseTimeout) as e:  # noqa
+        rec.violation(f"{kind}:raises:{type(e).__name__}:reassigned-interval", jc2, f"{type(e).__name__}: {str(e)[:300]}")
+        return
+    rec.count("reassigned_intervals_judged")
+    jc2["features"] = dict(jc2["features"], ivcls="reassigned")
+    judge_sets(jc2, kind, sets, rec, dict(jc2, scenario=f"item constructed with interval {jc1['iv']}, used, then .interval reassigned"))
+
+
 def run_complement(case, rec):
     """only == complement of zero on the same interval."""
     jc = S.jsonable_case(case)
@@ -448,6 +483,8 @@ def run_shard(spec, rec):
                     run_monotone(case, rec, rng)
                 if rep == 0 and kind == "zero":
                     run_complement(case, rec)
+                if rep == 0 and ivcls in ("finite", "on_points", "between", "partly_above"):
+                    run_reassign(case, rec, rng)
         run_both_weights(rng, rec)
 
 
